@@ -251,7 +251,7 @@ func dedupInts(in []int, keep func(int) bool) []int {
 }
 
 func configs(r *vrt.R) []cfgSpec {
-	thr := []int{0, 1, 64, 256}
+	thr := []int{0, 1, 64}
 	if r.Thorough() {
 		thr = []int{0, 1, 2, 64, 127, 128, 256, 16384}
 	}
@@ -371,7 +371,7 @@ func enumFrames(r *vrt.R, cfg cfgSpec, emit func(*caseSpec) bool) bool {
 		}
 		for _, cl := range claims {
 			for _, l := range lens {
-				prefixes := r.Thorough() || l == "ok" || l == "ok+1"
+				prefixes := r.Thorough() || l == "ok"
 				if !one(frameSpec{Len: l, Claim: cl, Data: d}, prefixes) {
 					return false
 				}
@@ -450,6 +450,9 @@ func enumFree(r *vrt.R, cfg cfgSpec, emit func(*caseSpec) bool) bool {
 	}
 	heavy := fmt.Sprintf("V%d", refframe.MaxFrame)
 	depth := 3
+	if !cfg.FromClient {
+		depth = 2 // the direction only selects the claimed-size cap, which free strings of small tokens never reach
+	}
 	if r.Thorough() {
 		depth = 4
 	}
